@@ -158,6 +158,9 @@ def check_cases():
         "overflow-like, not a hash": lambda: z3.Not(z3.ULE(slot, z3.BitVecVal(1, 256) + slot)),
         "overflow-like, unnegated": lambda: z3.ULE(h, z3.BitVecVal(1, 256) + h),
         "overflow-like, ULT": lambda: z3.Not(z3.ULT(h, z3.BitVecVal(1, 256) + h)),
+        "overflow-like, three-term sum (simplified)": lambda: z3.simplify(z3.Not(z3.ULE(h, z3.BitVecVal(1000, 256) + h + off))),
+        "overflow-like, three-term sum, base last": lambda: z3.simplify(z3.Not(z3.ULE(h, z3.BitVecVal(1000, 256) + off + h))),
+        "overflow-like, offset on the right": lambda: z3.Not(z3.ULE(h, h + z3.BitVecVal(1, 256))),
     }
     for name, mk in shapes.items():
 
@@ -211,6 +214,7 @@ def replay_check(r):
         z3.Not(z3.ULT(h, z3.BitVecVal(1, 256) + h)),
         z3.ULE(h, z3.BitVecVal(1, 256) + h),
         z3.Not(z3.ULE(h, z3.BitVecVal(1, 256) + f_sha3(off))),
+        z3.simplify(z3.Not(z3.ULE(h, z3.BitVecVal(1000, 256) + h + off))),
         x == 1,
         z3.Not(x == 1),
         z3.UGT(x, 5),
@@ -659,14 +663,176 @@ def replay_symbolic_jump(r):
     return {"reproduced": False, "detail": "every call value is covered by a reported path"}
 
 
+# ---------------------------------------------------------------------------------------
+# Path.branch / Path.activate / SEVM.create_branch: what a successor is
+
+
+class RecSolver:
+    def __init__(self):
+        self.scopes = 0
+        self.log = []
+        self.asserted = [[]]
+
+    def num_scopes(self):
+        return self.scopes
+
+    def push(self):
+        self.scopes += 1
+        self.asserted.append([])
+        self.log.append(("push",))
+
+    def pop(self, n=1):
+        self.log.append(("pop", n))
+        for _ in range(n):
+            self.asserted.pop()
+        self.scopes -= n
+
+    def add(self, c):
+        self.asserted[-1].append(c)
+        self.log.append(("add", c))
+
+    def check(self, *a):
+        return z3.unknown
+
+
+def _real_path(solver, conds):
+    import halmos.sevm as hs
+
+    p = hs.Path(solver)
+    for c, br in conds:
+        hs.Path.append(p, c, br)
+    return p
+
+
+def path_cases():
+    import halmos.sevm as hs
+
+    out = []
+
+    def harness_branch(interp):
+        ctx = interp.ctx
+        x, y = z3.BitVecs("x y", 256)
+        solver = RecSolver()
+        parent = _real_path(solver, [(z3.UGT(x, 5), True), (y == 7, False)])
+        parent.concretization.candidates[x] = [1, 2]
+        n_added = len(solver.log)
+        c = z3.ULT(x, 100)
+        child = interp.call(hs.Path.__dict__["branch"], [parent, c], {})
+        ctx.oblige("the successor carries every condition of its parent (same order and flags)", z3.BoolVal(list(child.conditions.items()) == list(parent.conditions.items())))
+        ctx.oblige("the branching condition is pending on the successor, not yet asserted anywhere", z3.BoolVal(list(child.pending) == [c] and c not in child.conditions and c not in parent.conditions and not any(e[0] == "add" for e in solver.log[n_added:])))
+        ctx.oblige("the solver scope to return to is recorded and a new scope is opened", z3.BoolVal(child.num_scopes == 0 and solver.scopes == 1 and child.solver is solver))
+        # ownership: what one path learns later must not become visible to its sibling
+        own = child.conditions is not parent.conditions and child.concretization is not parent.concretization and child.concretization.substitution is not parent.concretization.substitution and child.concretization.candidates is not parent.concretization.candidates and child.related is not parent.related and child.var_to_conds is not parent.var_to_conds
+        ctx.oblige("ownership: conditions, substitution map, candidate map and dependency maps of the successor are its own copies", z3.BoolVal(own))
+        ctx.oblige("the copies start equal to the parent's", z3.BoolVal(child.concretization.substitution == parent.concretization.substitution and child.concretization.candidates == parent.concretization.candidates and dict(child.var_to_conds) == dict(parent.var_to_conds)))
+        # frame: a fact learnt by the parent afterwards does not reach the pending successor
+        hs.Path.append(parent, x == 9, True)
+        ctx.oblige("frame: an equality learnt later on one path is not substituted on its sibling", z3.BoolVal(x not in child.concretization.substitution and (x == 9) not in child.conditions))
+
+    out.append(Case(f"{PROP}/sevm.Path.branch", "two conditions, one learnt substitution", harness_branch, replay=replay_branch_isolation, sources=("halmos.sevm:Path.branch",)))
+
+    def harness_busy(interp):
+        ctx = interp.ctx
+        solver = RecSolver()
+        p = _real_path(solver, [])
+        p.pending.append(z3.Bool("c"))
+        try:
+            interp.call(hs.Path.__dict__["branch"], [p, z3.Bool("d")], {})
+            ctx.oblige("branching from a path that is not activated is refused", z3.BoolVal(False))
+        except ValueError:
+            ctx.oblige("branching from a path that is not activated is refused", z3.BoolVal(True))
+
+    out.append(Case(f"{PROP}/sevm.Path.branch", "inactive path", harness_busy, sources=("halmos.sevm:Path.branch",)))
+
+    for extra in (0, 1, 3):
+
+        def harness_activate(interp, extra=extra):
+            ctx = interp.ctx
+            x = z3.BitVec("x", 256)
+            solver = RecSolver()
+            parent = _real_path(solver, [(z3.UGT(x, 5), True)])
+            c = z3.ULT(x, 100)
+            child = hs.Path.branch(parent, c)
+            # the parent (or other successors) went on: more scopes and assertions above the recorded one
+            for k in range(extra):
+                solver.push()
+                solver.add(x != 50 + k)
+            interp.call(hs.Path.__dict__["activate"], [child], {})
+            ctx.oblige("activation returns the solver to the recorded scope (assertions made since by other paths are gone)", z3.BoolVal(solver.scopes == 0 and not any(str(a_).startswith("x != 5") for sc in solver.asserted for a_ in sc)), info={"scopes": solver.scopes})
+            last_c, last_flag = list(child.conditions.items())[-1]
+            ctx.oblige("activation asserts exactly the pending branching condition, as a branching condition, and clears it", z3.BoolVal(list(child.pending) == [] and len(child.conditions) == 2 and JU.is_exactly(last_c, c) and last_flag is True and solver.asserted[-1][-1] is last_c))
+            visible = [a_ for sc in solver.asserted for a_ in sc]
+            ctx.oblige("what the solver holds afterwards are conditions of this path only", z3.BoolVal(all(any(a_.eq(cc) for cc in child.conditions) for a_ in visible)))
+
+        out.append(Case(f"{PROP}/sevm.Path.activate", f"{extra} foreign scope(s) above", harness_activate, sources=("halmos.sevm:Path.activate",)))
+
+    def harness_stale(interp):
+        ctx = interp.ctx
+        solver = RecSolver()
+        p = _real_path(solver, [])
+        p.num_scopes = 2
+        p.pending.append(z3.Bool("c"))
+        try:
+            interp.call(hs.Path.__dict__["activate"], [p], {})
+            ctx.oblige("a path whose recorded scope no longer exists is rejected, not silently activated", z3.BoolVal(False))
+        except ValueError:
+            ctx.oblige("a path whose recorded scope no longer exists is rejected, not silently activated", z3.BoolVal(True))
+
+    out.append(Case(f"{PROP}/sevm.Path.activate", "stale scope", harness_stale, sources=("halmos.sevm:Path.activate",)))
+
+    def harness_create_branch(interp):
+        ctx = interp.ctx
+        from contracts.common import mk_ex, mk_sevm
+
+        sevm = mk_sevm()
+        ex = mk_ex(sevm, bytes([0x5B, 0x00, 0x5B, 0x00]))
+        ex.st.stack.append(hs.ZERO)
+        ex.jumpis[(0, ())] = {True: 1, False: 0}
+        ex.alias[z3.BitVec("a", 160)] = None
+        ex.cnts["fresh"] = 3
+        c = z3.Bool("c")
+        seen = []
+        marker = NS(tag="new-path")
+        interp.contracts["halmos.sevm:Path.branch"] = lambda i, a, k: (seen.append((a[0], a[1])), marker)[1]
+        nx = interp.call(hs.SEVM.__dict__["create_branch"], [sevm, ex, c, 2], {})
+        ctx.oblige("the successor's path is the parent's path branched on exactly the given condition", z3.BoolVal(nx.path is marker and seen == [(ex.path, c)]))
+        ctx.oblige("the successor starts at the given pc with the instruction decoded there", z3.BoolVal(nx.pc == 2 and nx.insn.opcode == 0x5B and nx.pgm is ex.pgm))
+        fresh = nx.st is not ex.st and nx.st.stack is not ex.st.stack and nx.st.memory is not ex.st.memory and nx.storage is not ex.storage and nx.transient_storage is not ex.transient_storage and nx.jumpis is not ex.jumpis and nx.code is not ex.code and nx.alias is not ex.alias and nx.cnts is not ex.cnts and nx.sha3s is not ex.sha3s and nx.storages is not ex.storages and nx.balances is not ex.balances and nx.context is not ex.context and nx.block is not ex.block
+        ctx.oblige("ownership: stack, memory, storage, transient storage, loop counters, code map, aliases, counters, hash registry, update maps, call context and block of the successor are its own copies", z3.BoolVal(fresh))
+        same = len(nx.st.stack) == 1 and nx.jumpis == ex.jumpis and nx.alias == ex.alias and nx.cnts == ex.cnts and nx.balance is ex.balance and nx.callback is ex.callback and set(nx.code) == set(ex.code)
+        ctx.oblige("the copies start equal to the parent's state", z3.BoolVal(same))
+        nx.jumpis[(0, ())][True] = 9
+        nx.st.stack.append(hs.ONE)
+        ctx.oblige("frame: later changes of the successor do not reach the parent", z3.BoolVal(ex.jumpis[(0, ())][True] == 1 and len(ex.st.stack) == 1))
+
+    out.append(Case(f"{PROP}/sevm.SEVM.create_branch", "state with stack, counters, aliases", harness_create_branch, sources=("halmos.sevm:SEVM.create_branch",)))
+    return out
+
+
+def replay_branch_isolation(r):
+    """real run: two nested symbolic branches, the second re-reads the calldata word the first one fixed"""
+    import halmos.sevm as hs
+
+    x = z3.BitVec("p", 256)
+    solver = __import__("halmos.utils", fromlist=["create_solver"]).create_solver()
+    parent = hs.Path(solver)
+    parent.append(z3.UGT(x, 1))
+    child = parent.branch(z3.ULT(x, 100))
+    parent.append(x == 5, branching=True)
+    leaked = x in child.concretization.substitution
+    if leaked:
+        return {"reproduced": True, "detail": "Path.branch: after the parent path learnt `p == 5`, the pending sibling path substitutes p by 5 as well (shared Concretization.substitution): inputs with p != 5 are decided as if p were 5", "inputs": "parent.append(p == 5) after parent.branch(p < 100)"}
+    return {"reproduced": False, "detail": "sibling paths do not share learnt substitutions"}
+
+
 def build_cases(tier="quick"):
-    return jumpi_cases() + check_cases() + select_cases() + calldataload_cases() + funds_cases() + alias_cases() + symbolic_jump_cases()
+    return jumpi_cases() + check_cases() + select_cases() + calldataload_cases() + funds_cases() + alias_cases() + symbolic_jump_cases() + path_cases()
 
 
 ASSUMPTIONS = [
     "pyvc (VC generator, Python-subset semantics) is trusted; path covers guard vacuity",
     "Exec.check is used through its contract in the caller proofs (unsat => PC excludes the query); z3 `unsat` is trusted to mean unsatisfiable",
-    "create_branch is used through its contract in the caller proofs (new state = parent's path + the pending condition at the given pc)",
+    "create_branch and Path.branch are used through their contracts in the caller proofs and proved as units of their own (successor = parent's conditions + the pending condition at the given pc, on copies it owns; Path.activate returns the shared solver to the recorded scope)",
     "the worklist / activation discipline of SEVM.run (every pushed state is eventually popped, activated and run) is not under contract",
 ]
 TRUSTED = ["pyvc (this repository's verifier)", "z3 4.12.6"]
